@@ -12,7 +12,7 @@ for path in sys.argv[1:]:
         name, pid, ex, nv, rest = m.groups()
         hs = sorted(set(re.findall(r"\(([a-z0-9_]+)\[[ABP]\]\)", rest)))
         inc = re.findall(r"INCONCLUSIVE: ([a-z0-9_]+)", rest)
-        res.setdefault(name, {})[pid] = {"exit": int(ex), "violations": int(nv), "harnesses": hs, "inconclusive": inc}
+        res.setdefault(name, {}).setdefault(pid, []).append({"exit": int(ex), "violations": int(nv), "harnesses": hs, "inconclusive": inc})
 rows = []
 for name in sorted(os.listdir(os.path.join(V, "seeded"))):
     mp = os.path.join(V, "seeded", name, "meta.json")
@@ -23,15 +23,18 @@ for name in sorted(os.listdir(os.path.join(V, "seeded"))):
         meta["what_i_ran"] = "bin/seedtest seeded/%s %s %s  (scratch worktree of /repo HEAD + patch; VERIF_REPO=<worktree> bin/check <PID> --tier quick)" % (name, name, " ".join(r))
         json.dump(meta, open(mp, "w"), indent=1)
     det = []
-    for pid, x in (r or {}).items():
-        if x["exit"] == 1:
-            det.append("%s quick: VIOLATION (%s)" % (pid, ", ".join(x["harnesses"][:3])))
-        elif x["exit"] == 2:
-            det.append("%s quick: inconclusive (%s)" % (pid, ", ".join(x["inconclusive"][:2])))
-        elif x["exit"] == 3:
-            det.append("%s quick: overlay does not compile" % pid)
-        else:
-            det.append("%s quick: not detected" % pid)
+    for pid, runs in (r or {}).items():
+        parts = []
+        for x in runs:
+            if x["exit"] == 1:
+                parts.append("VIOLATION (%s)" % (", ".join(x["harnesses"][:3]) or "compile-time Send/Sync obligation"))
+            elif x["exit"] == 2:
+                parts.append("inconclusive, exit 2 (%s)" % ", ".join(x["inconclusive"][:2]))
+            elif x["exit"] == 3:
+                parts.append("overlay does not compile, exit 3")
+            else:
+                parts.append("not detected")
+        det.append("%s quick: %s" % (pid, "  →  after strengthening: ".join(parts)))
     what = meta["what_it_needs_to_manifest"].split("\n")[0][:110]
     rows.append("| %s | %s | %s |" % (name, what.replace("|", "/"), "; ".join(det) or "(not run)"))
 print("| seed | change (first line of the author's note) | result |\n|---|---|---|")
